@@ -157,9 +157,10 @@ def r3_kv_and_comments(cx):
     cx.require(not bad, bad[0] if bad else fn, "never split at the last separator", construct=short(bad[0]) if bad else "no rsplit/rpartition")
     sp = [x for x in feat.calls(reg, attr="split") if x.args and U(x.args[0]) in sep_names]
     pa = [x for x in feat.calls(reg, attr="partition") if x.args and U(x.args[0]) in sep_names]
-    ok = bool(sp) and all(len(x.args) == 2 and U(x.args[1]) == "1" for x in sp)
-    cx.require(ok, sp[0] if sp else fn, "line.split(separator, 1): the key ends at the first separator", construct="; ".join(short(x) for x in sp) if sp else "(none)")
-    cx.require(bool(pa), pa[0] if pa else fn, "partition variant also splits at the first separator", construct=short(pa[0]) if pa else "(none)")
+    ok = (bool(sp) or bool(pa)) and all(len(x.args) == 2 and U(x.args[1]) == "1" for x in sp)
+    cx.require(ok, sp[0] if sp else pa[0] if pa else fn, "line.split(separator, 1) / line.partition(separator): the key ends at the first separator", construct="; ".join(short(x) for x in sp + pa) if sp or pa else "(none)")
+    # a line without the separator is ignored unless use_partition is set: every store is reached only with the separator present or use_partition
+    cx.require(bool(pa) or "use_partition" not in ps, pa[0] if pa else fn, "partition variant also splits at the first separator", construct=short(pa[0]) if pa else "(none)")
     sts = [a for a in walk_body(fn.body) if isinstance(a, ast.Assign) and U(a.targets[0]).startswith("kv_pairs[")]
     other = [x for x in find_calls(fn.body, attr=("setdefault", "update")) if U(x.func.value) == "kv_pairs"]
     ok = bool(sts) and not other
@@ -222,6 +223,13 @@ def _pairing_ok(fn):
                     d = [a for a in walk_body(fn.body) if isinstance(a, ast.Assign) and U(a.targets[0]) == x]
                     if len(d) == 1 and U(d[0].value).endswith("+ [None]"):
                         return n
+                    # X = []; for ...: X.append(start) ; X.append(None)      (the open end appended last, outside the loop, unconditionally)
+                    aps = [c_ for c_ in find_calls(fn.body, attr="append") if U(c_.func.value) == x]
+                    tail = [c_ for c_ in aps if U(c_.args[0]) == "None"]
+                    if len(d) == 1 and U(d[0].value) in ("[]", "list()") and len(tail) == 1 and enclosing(tail[0], (ast.For, ast.While, ast.If)) is None \
+                            and all(c_ is tail[0] or (enclosing(c_, ast.For) is not None and stmt_of(c_).lineno < stmt_of(tail[0]).lineno) for c_ in aps) \
+                            and stmt_of(tail[0]).lineno < stmt_of(n).lineno:
+                        return n
         # zip(X, X[1:] + [None])
         if isinstance(n, ast.Call) and call_name(n) == "zip" and len(n.args) == 2:
             x = U(n.args[0])
@@ -243,6 +251,16 @@ def r4_tables(cx):
         ok = lp is not None and not feat.loop_exits(lp) and feat.flows_from(idx[0].args[1], f, lambda n: isinstance(n, ast.BinOp) and isinstance(n.op, ast.Add) and U(n.right) == "1" and U(n.left).endswith("[-1]"))
         d = assigns_to(f, U(idx[0].args[1])) if isinstance(idx[0].args[1], ast.Name) else []
         ok = ok and all(enclosing(a, ast.For) is lp for a in d)
+        if not ok and lp is not None and isinstance(idx[0].args[1], ast.Name) and not feat.loop_exits(lp):
+            # running position:  pos = 0 ; for h in headers: start = header.index(h, pos) ; ... ; pos = start + 1
+            sv = idx[0].args[1].id
+            outer_d = [a for a in d if enclosing(a, (ast.For, ast.While)) is None]
+            inner_d = [a for a in d if enclosing(a, ast.For) is lp]
+            res = stmt_of(idx[0])
+            rname = U(res.targets[0]) if isinstance(res, ast.Assign) and res.value is idx[0] else None
+            ok = len(d) == 2 and len(outer_d) == 1 and U(outer_d[0].value) == "0" and outer_d[0].lineno < lp.lineno and len(inner_d) == 1 and not guard_texts(inner_d[0], stop=lp) \
+                and not guard_texts(idx[0], stop=lp) and inner_d[0].lineno > res.lineno and rname is not None and U(inner_d[0].value) in ("%s + 1" % rname, "1 + %s" % rname) \
+                and len(assigns_to(lp.body, rname)) == 1
     cx.require(ok, idx[0] if idx else fn, "each header is located strictly after the previous column start (duplicate header text is handled)",
                construct=short(stmt_of(idx[0])) if idx else "(no .index(header, start))")
     pr = _pairing_ok(fn)
